@@ -36,10 +36,12 @@ func Seed() int64                           { panic("sym") }
 func Bound(name string, v int)              { panic("sym") } // "unwind", "slice-len", "max-paths"
 func Option(name string)                    { panic("sym") }
 func Stub(fullFuncName string)               { panic("sym") } // replace a callee by "any result of its type" (listed in evidence)
+func StubMayPanic(fullFuncName string)        { panic("sym") } // like Stub, and the callee may also panic
 func SpyCount(fullFuncName string) int                { panic("sym") } // calls of a stubbed function on this path
 func SpyArgZ(fullFuncName string, call, arg int) Z    { panic("sym") } // numeric argument (0 = receiver)
 func SpyArgBool(fullFuncName string, call, arg int) bool { panic("sym") }
 func SpyErrNil(fullFuncName string, call int) bool    { panic("sym") }
+func SpyArgIsCtx(fullFuncName string, call, arg int, ctx sdk.Context) bool { panic("sym") } // was that context argument this very context (not a cache context branched from it)?
 // did the stub return a nil error
 func SpyResZ(fullFuncName string, call, res int) Z { panic("sym") } // numeric result number res of the stub's call
 func StubMonotone(fullFuncName string, arg, result int) { panic("sym") } // stub that is non-decreasing in argument arg (0 = receiver) for result index
